@@ -773,6 +773,39 @@ func (c *Ctx) checkRebuild(r *fnRef) {
 			continue
 		}
 		ap := apps[0]
+		// the kept list is built in every call that returns normally: a return that hands back the
+		// list as it was before the rebuild loop (a "nothing to remove" shortcut) reports no kept
+		// column although every column is kept
+		if spec.name == "kept" {
+			early := ""
+			for _, rt := range rets {
+				reaches := false
+				for v := range throughPhis(rt.Results[ri], true) {
+					if v == ssa.Value(ap) {
+						reaches = true
+					}
+				}
+				if !reaches {
+					// an error return may hand back anything
+					isErr := false
+					for _, rv := range rt.Results {
+						if rv.Type().String() == "error" {
+							if k, ok := rv.(*ssa.Const); !ok || !k.IsNil() {
+								isErr = true
+							}
+						}
+					}
+					if !isErr {
+						early = c.P.Pos(rt.Pos())
+					}
+				}
+			}
+			if early != "" {
+				L.Bad("index-lists", r.label, "kept built before every normal return", early, "a normal return hands back the kept list without passing the loop that fills it: kept and rm no longer partition the columns")
+			} else {
+				L.OK("index-lists", r.label, "kept built before every normal return", c.P.Pos(ap.Pos()), "every normal return carries the list filled by the rebuild loop")
+			}
+		}
 		var anchor ssa.Instruction = keep
 		if spec.arm == "remove" {
 			anchor = incs[0]
